@@ -427,6 +427,9 @@ fn parse_op(s: &str) -> Option<Op> {
         "al" if first == First::Cmd => Op::Alloc(rest.parse().ok()?),
         "g" if first == First::Cmd => {
             let (a, b) = pair(rest)?;
+            if b.saturating_sub(a) > 100_000 {
+                return None;
+            }
             Op::Get(a, b)
         }
         "io" if first == First::Cmd && rest == "n" => Op::IoN,
@@ -671,8 +674,366 @@ fn exec(case: &str) -> String {
 }
 
 // ------------------------------------------------------------------------------------ generators
-fn generate(_r: &mut Rng, _n: usize, _tier: &str) -> Vec<String> {
-    vec![]
+/// What the generator believes the log holds (plain-log rules), so that most generated requests are what Raft
+/// would hand to the log. It is only a guide for generation; nothing is judged against it.
+#[derive(Clone)]
+struct Shadow {
+    anchor: (u64, u64),
+    log: Vec<(u64, u64, u64)>,
+    known: bool,  // false after a crash that may have lost a suffix
+    synced: bool, // store == log and all of it fsynced
+    alive: bool,
+    pay: u64,
+}
+
+impl Shadow {
+    fn new() -> Self {
+        Shadow { anchor: (0, 0), log: vec![], known: true, synced: true, alive: true, pay: 0 }
+    }
+    fn last(&self) -> (u64, u64) {
+        self.log.last().map(|e| (e.0, e.1)).unwrap_or(self.anchor)
+    }
+    fn next(&self) -> u64 {
+        self.last().0 + 1
+    }
+    fn tcur(&self) -> u64 {
+        self.last().1.max(1)
+    }
+    fn term_at(&self, i: u64) -> Option<u64> {
+        self.log.iter().find(|e| e.0 == i).map(|e| e.1).or(if self.anchor.0 > 0 && i == self.anchor.0 { Some(self.anchor.1) } else { None })
+    }
+    fn fresh(&mut self, i: u64, t: u64) -> (u64, u64, u64) {
+        self.pay = (self.pay + 1) % 250;
+        (i, t, self.pay)
+    }
+    fn run(&mut self, from: u64, k: u64, t: u64) -> Vec<(u64, u64, u64)> {
+        (0..k).map(|j| self.fresh(from + j, t)).collect()
+    }
+    /// textbook AppendEntries receiver rule
+    fn fca(&mut self, pi: u64, pt: u64, es: &[(u64, u64, u64)]) {
+        if pi == 0 && pt == 0 {
+            self.log = es.to_vec();
+            return;
+        }
+        if self.term_at(pi) != Some(pt) {
+            return;
+        }
+        for (k, e) in es.iter().enumerate() {
+            let have = self.log.iter().find(|x| x.0 == e.0).map(|x| x.1);
+            if have != Some(e.1) {
+                self.log.retain(|x| x.0 < e.0);
+                self.log.extend_from_slice(&es[k..]);
+                return;
+            }
+        }
+    }
+}
+
+fn show_es(es: &[(u64, u64, u64)]) -> String {
+    if es.is_empty() {
+        return "-".into();
+    }
+    es.iter().map(|e| format!("{}.{}.{}", e.0, e.1, e.2)).collect::<Vec<_>>().join(",")
+}
+
+fn race_suffix(r: &mut Rng, racy: bool) -> &'static str {
+    if !racy {
+        return "";
+    }
+    match r.below(4) {
+        0 => "^",
+        1 => "~",
+        _ => "",
+    }
+}
+
+/// one mostly-well-formed operation, instantiated against the shadow
+fn structured_op(r: &mut Rng, sh: &mut Shadow, racy: bool, file: bool) -> String {
+    if !sh.known {
+        // come back to a known state: wipe the log
+        sh.known = true;
+        sh.synced = false;
+        return if r.chance(1, 2) {
+            sh.log.clear();
+            "r".to_string()
+        } else {
+            let k = r.range(1, 3);
+            let t = r.range(1, 3);
+            let es = sh.run(sh.anchor.0 + 1, k, t);
+            sh.log = es.clone();
+            format!("f:0.0:{}", show_es(&es))
+        };
+    }
+    let roll = r.below(100);
+    let bump = |r: &mut Rng, sh: &Shadow| if r.chance(1, 3) { (sh.tcur() + 1).min(5) } else { sh.tcur() };
+    if roll < 16 {
+        // plain append at the tail (leader path)
+        let k = r.range(1, 3);
+        let t = bump(r, sh);
+        let es = sh.run(sh.next(), k, t);
+        sh.log.extend_from_slice(&es);
+        sh.synced = false;
+        format!("a:{}", show_es(&es))
+    } else if roll < 26 {
+        // follower: extension right after the last entry
+        let (pi, pt) = sh.last();
+        if pi == 0 {
+            let es = sh.run(1, r.range(1, 3), 1);
+            sh.log = es.clone();
+            sh.synced = false;
+            return format!("f{}:0.0:{}", race_suffix(r, racy), show_es(&es));
+        }
+        let k = r.range(0, 3);
+        let t = bump(r, sh);
+        let es = sh.run(pi + 1, k, t);
+        sh.fca(pi, pt, &es);
+        sh.synced = sh.synced && k == 0;
+        format!("f:{}.{}:{}", pi, pt, show_es(&es))
+    } else if roll < 40 && !sh.log.is_empty() {
+        // overlap: resend `back` entries that are already there, plus k new ones (fast path / slow all-match)
+        let back = r.range(1, (sh.log.len() as u64).min(4));
+        let start = sh.log.len() - back as usize;
+        let pi = if start == 0 { sh.anchor.0 } else { sh.log[start - 1].0 };
+        let pt = if start == 0 { sh.anchor.1 } else { sh.log[start - 1].1 };
+        if pi == 0 && pt == 0 {
+            let es = sh.log.clone();
+            sh.synced = false;
+            return format!("f{}:0.0:{}", race_suffix(r, racy), show_es(&es));
+        }
+        let mut es: Vec<_> = sh.log[start..].to_vec();
+        let k = r.range(0, 2);
+        let t = bump(r, sh);
+        let more = sh.run(sh.next(), k, t);
+        es.extend_from_slice(&more);
+        sh.fca(pi, pt, &es);
+        sh.synced = sh.synced && k == 0;
+        format!("f:{}.{}:{}", pi, pt, show_es(&es))
+    } else if roll < 58 && !sh.log.is_empty() {
+        // conflict: keep `m` matching entries, then a new term from there on
+        let back = r.range(1, (sh.log.len() as u64).min(5));
+        let start = sh.log.len() - back as usize;
+        let pi = if start == 0 { sh.anchor.0 } else { sh.log[start - 1].0 };
+        let pt = if start == 0 { sh.anchor.1 } else { sh.log[start - 1].1 };
+        let m = r.below(back) as usize;
+        let mut es: Vec<_> = sh.log[start..start + m].to_vec();
+        let t = (sh.tcur() + 1).min(6);
+        let k = r.range(1, 3);
+        let from = sh.log[start].0 + m as u64;
+        let more = sh.run(from, k, t);
+        es.extend_from_slice(&more);
+        if pi == 0 && pt == 0 {
+            sh.log = es.clone();
+            sh.synced = false;
+            return format!("f{}:0.0:{}", race_suffix(r, racy), show_es(&es));
+        }
+        sh.fca(pi, pt, &es);
+        sh.synced = false;
+        format!("f{}:{}.{}:{}", race_suffix(r, racy), pi, pt, show_es(&es))
+    } else if roll < 62 {
+        // prev does not match
+        let (pi, pt) = sh.last();
+        let es = sh.run(pi + 2, 1, pt + 1);
+        format!("f:{}.{}:{}", pi + 1, pt + 1, show_es(&es))
+    } else if roll < 66 {
+        // start from scratch
+        let k = r.range(0, 3);
+        let t = r.range(1, 3);
+        let es = sh.run(sh.anchor.0 + 1, k, t);
+        sh.log = es.clone();
+        sh.synced = false;
+        format!("f{}:0.0:{}", race_suffix(r, racy), show_es(&es))
+    } else if roll < 74 {
+        // purge up to somewhere between the anchor and just beyond the end
+        let lo = sh.anchor.0;
+        let hi = sh.last().0 + if r.chance(1, 6) { 1 } else { 0 };
+        let ci = r.range(lo, hi.max(lo));
+        let ct = sh.term_at(ci).unwrap_or(sh.tcur());
+        sh.log.retain(|e| e.0 > ci);
+        sh.anchor = (ci, ct);
+        sh.synced = false;
+        format!("p{}:{}.{}", race_suffix(r, racy), ci, ct)
+    } else if roll < 76 {
+        sh.log.clear();
+        sh.synced = false;
+        format!("r{}", race_suffix(r, racy))
+    } else if roll < 82 {
+        if sh.alive {
+            sh.synced = true;
+        }
+        format!("fl{}", race_suffix(r, racy))
+    } else if roll < 88 {
+        if sh.alive {
+            sh.synced = true;
+        }
+        if r.chance(2, 3) { "io:n".into() } else { "io:t".into() }
+    } else if roll < 90 {
+        format!("al:{}", r.below(3))
+    } else if roll < 92 {
+        let a = r.below(6);
+        format!("g:{}.{}", a, a + r.below(6))
+    } else if roll < 93 {
+        sh.alive = false;
+        sh.synced = true;
+        "close".into()
+    } else {
+        let power = !file && r.chance(1, 2);
+        if !sh.synced {
+            sh.known = false;
+        }
+        sh.alive = true;
+        if power { "c:w".into() } else { "c:p".into() }
+    }
+}
+
+fn structured_case(r: &mut Rng, racy: bool, file: bool) -> String {
+    let mut sh = Shadow::new();
+    let len = r.range(3, 12);
+    let mut ops = Vec::new();
+    for _ in 0..len {
+        ops.push(structured_op(r, &mut sh, racy, file));
+    }
+    // most cases end with a crash: that is where C18 looks
+    if r.chance(2, 3) {
+        ops.push(if !file && r.chance(1, 2) { "c:w".into() } else { "c:p".into() });
+    }
+    format!("{}|{}", if file { "e=file" } else { "e=sim" }, ops.join(";"))
+}
+
+/// malformed stream: gapped / unsorted / duplicate indexes, decreasing terms, term 0, index 0, far indexes
+fn malformed_entries(r: &mut Rng) -> Vec<(u64, u64, u64)> {
+    let n = r.below(5);
+    (0..n)
+        .map(|_| {
+            let i = match r.below(12) {
+                0 => 0,
+                1 => 150,
+                2 => 1000,
+                _ => r.range(1, 9),
+            };
+            (i, r.below(5), r.below(250))
+        })
+        .collect()
+}
+
+fn malformed_case(r: &mut Rng) -> String {
+    let len = r.range(2, 9);
+    let mut ops = Vec::new();
+    for _ in 0..len {
+        let op = match r.below(14) {
+            0 | 1 | 2 => format!("a:{}", show_es(&malformed_entries(r))),
+            3 | 4 | 5 | 6 => {
+                let mut es = malformed_entries(r);
+                if r.chance(1, 2) {
+                    es.sort();
+                }
+                format!("f{}:{}.{}:{}", race_suffix(r, true), r.below(9), r.below(4), show_es(&es))
+            }
+            7 => format!("p:{}.{}", r.below(10), r.below(4)),
+            8 => "r".into(),
+            9 => "fl".into(),
+            10 => if r.chance(1, 2) { "io:n".into() } else { "io:t".into() },
+            11 => format!("al:{}", r.below(4)),
+            12 => format!("g:{}.{}", r.below(8), r.below(8)),
+            _ => if r.chance(1, 2) { "c:p".into() } else { "c:w".into() },
+        };
+        ops.push(op);
+    }
+    format!("e=sim|{}", ops.join(";"))
+}
+
+/// exhaustive small scope: every sequence of `len` symbolic operations over a fixed small alphabet
+fn exhaustive(len: usize, out: &mut Vec<String>) {
+    // symbolic ops are instantiated against the shadow while the sequence is built
+    const K: usize = 11;
+    let mut idx = vec![0usize; len];
+    loop {
+        let mut sh = Shadow::new();
+        let mut ops: Vec<String> = Vec::new();
+        for &c in &idx {
+            let op = match c {
+                0 => {
+                    let t = sh.tcur();
+                    let es = sh.run(sh.next(), 2, t);
+                    sh.log.extend_from_slice(&es);
+                    format!("a:{}", show_es(&es))
+                }
+                1 => {
+                    let t = sh.tcur() + 1;
+                    let es = sh.run(sh.next(), 1, t);
+                    sh.log.extend_from_slice(&es);
+                    format!("a:{}", show_es(&es))
+                }
+                2 | 3 | 4 => {
+                    // conflict one or two entries back (or extension when the log is too short)
+                    let back = (c - 2).min(sh.log.len());
+                    let start = sh.log.len() - back;
+                    let (pi, pt) = if start == 0 { sh.anchor } else { (sh.log[start - 1].0, sh.log[start - 1].1) };
+                    let t = sh.tcur() + if back > 0 { 1 } else { 0 };
+                    let es = sh.run(pi + 1, 2, t);
+                    if pi == 0 && pt == 0 { sh.log = es.clone(); } else { sh.fca(pi, pt, &es); }
+                    format!("f:{}.{}:{}", pi, pt, show_es(&es))
+                }
+                5 => {
+                    // resend the last two entries
+                    let back = 2.min(sh.log.len());
+                    let start = sh.log.len() - back;
+                    let (pi, pt) = if start == 0 { sh.anchor } else { (sh.log[start - 1].0, sh.log[start - 1].1) };
+                    let es: Vec<_> = sh.log[start..].to_vec();
+                    format!("f:{}.{}:{}", pi, pt, show_es(&es))
+                }
+                6 => {
+                    let ci = if sh.log.len() >= 2 { sh.log[sh.log.len() - 2].0 } else { sh.last().0 };
+                    let ct = sh.term_at(ci).unwrap_or(1);
+                    sh.log.retain(|e| e.0 > ci);
+                    sh.anchor = (ci, ct);
+                    format!("p:{}.{}", ci, ct)
+                }
+                7 => "fl".to_string(),
+                8 => "io:n".to_string(),
+                9 => "c:p".to_string(),
+                _ => "c:w".to_string(),
+            };
+            let crash = c >= 9;
+            ops.push(op);
+            if crash {
+                break; // the shadow does not know what survived
+            }
+        }
+        out.push(format!("e=sim|{}", ops.join(";")));
+        // next index vector
+        let mut k = len;
+        loop {
+            if k == 0 {
+                return;
+            }
+            k -= 1;
+            idx[k] += 1;
+            if idx[k] < K {
+                break;
+            }
+            idx[k] = 0;
+        }
+    }
+}
+
+fn generate(r: &mut Rng, n: usize, tier: &str) -> Vec<String> {
+    let mut out = Vec::new();
+    for i in 0..n {
+        out.push(match i % 20 {
+            0..=9 => structured_case(r, false, false),
+            10..=12 => structured_case(r, true, false),
+            13 | 14 => structured_case(r, false, true),
+            _ => malformed_case(r),
+        });
+    }
+    if tier == "thorough" {
+        for len in 1..=4 {
+            exhaustive(len, &mut out);
+        }
+    }
+    out.sort();
+    out.dedup();
+    out
 }
 
 fn main() {
